@@ -47,7 +47,7 @@ SmallAlphabet == { PauseProtocol("AUTH", "CCTP"), UnpauseProtocol("AUTH", "CCTP"
                  \cup Probes \cup { Xfer(0, "uusdc", 1000, [FwINT("U") EXCEPT !.pt = n], <<>>) : n \in {2, 3} }
 
 StepProps == [][ /\ Prop_C08(last') /\ Prop_C09(last') /\ Prop_C10(last') /\ Prop_C18(last')
-                 /\ Prop_C01(last') /\ Prop_C02(last') /\ Prop_C05(last') /\ Prop_C12(last') /\ Prop_C17(last') ]_vars
+                 /\ Prop_C01(last') /\ MC_C02(last') /\ Prop_C05(last') /\ Prop_C12(last') /\ Prop_C17(last') ]_vars
 
 \* payloads that do not contain a paused action / destination behave as if nothing were paused (C08/C09)
 Unaffected == \A in \in Probes :
